@@ -106,7 +106,11 @@ async fn run_world(wi: u64, mut rng: Rng) -> anyhow::Result<Summary> {
             let trace = net.take_trace();
             let (post, _) = grid(&nodes, &keys, &mut ids, &mut vals, &names, o).await;
             let reqs: Vec<&TraceEv> = trace.iter().filter(|e| e.is_request && e.from == origin.tid).collect();
-            let fn_reqs: Vec<String> = reqs.iter().filter(|e| e.op.starts_with("FindNode")).map(|e| e.to.clone()).collect();
+            // a request = a frame handed to the wire, or an attempt that died at the dial (silent node not yet connected)
+            let addr_owner: HashMap<String, String> = nodes.iter().map(|x| (x.addr.to_string(), x.tid.clone())).collect();
+            let fn_reqs: Vec<String> = trace.iter().filter(|e| e.from == origin.tid).filter_map(|e| {
+                if e.is_request && e.op.starts_with("FindNode") { Some(e.to.clone()) }
+                else if e.op == "Dial:refused" { addr_owner.get(&e.to).cloned() } else { None } }).collect();
             let put_reqs: Vec<String> = reqs.iter().filter(|e| e.op.starts_with("Put")).map(|e| e.to.clone()).collect();
             let mut replies = vec![];
             for e in reqs.iter().filter(|e| e.op.starts_with("FindNode")) {
@@ -151,7 +155,10 @@ async fn run_world(wi: u64, mut rng: Rng) -> anyhow::Result<Summary> {
             let trace = net.take_trace();
             let (post, _) = grid(&nodes, &keys, &mut ids, &mut vals, &names, o).await;
             let reqs: Vec<&TraceEv> = trace.iter().filter(|e| e.is_request && e.from == origin.tid && e.op.starts_with("FindValue")).collect();
-            let fv_reqs: Vec<String> = reqs.iter().map(|e| e.to.clone()).collect();
+            let addr_owner: HashMap<String, String> = nodes.iter().map(|x| (x.addr.to_string(), x.tid.clone())).collect();
+            let fv_reqs: Vec<String> = trace.iter().filter(|e| e.from == origin.tid).filter_map(|e| {
+                if e.is_request && e.op.starts_with("FindValue") { Some(e.to.clone()) }
+                else if e.op == "Dial:refused" { addr_owner.get(&e.to).cloned() } else { None } }).collect();
             let mut replies = vec![];
             for e in reqs.iter() {
                 let resp = trace.iter().find(|r| !r.is_request && r.msg_id == e.msg_id && r.from == e.to && r.delivered && r.result.is_some());
